@@ -175,6 +175,11 @@ func (e *Engine) buildWrites() {
 				case ssa.CallInstruction:
 					com := x.Common()
 					if com.IsInvoke() || (com.StaticCallee() == nil && !isBuiltinCall(com)) {
+						if !com.IsInvoke() && e.stepParamResolved(fn, com.Value) {
+							// a step handed to this helper as a parameter: every caller passes a
+							// repository function or function literal, whose own stores are recorded
+							continue
+						}
 						for ai, a := range com.Args {
 							if pointerLike(a.Type()) {
 								all = append(all, pending{fn: fn, in: in, addr: a, kind: fmt.Sprintf("havoc:%s#%d", e.site(x.Pos()), ai), havoc: true})
@@ -321,6 +326,112 @@ func (e *Engine) RetIsFail(ret *ssa.Return) bool {
 	return knownNonNilAt(last, ret.Block())
 }
 
+// runsOnlyDeferredBy: every call of fn in the program is a defer statement,
+// one of them in function by (so what fn does to by's locals happens only when
+// by runs its deferred calls).
+func (e *Engine) runsOnlyDeferredBy(fn, by *ssa.Function) bool {
+	cs := e.P.Callers[fn]
+	if len(cs) == 0 {
+		return false
+	}
+	mine := false
+	for _, c := range cs {
+		if _, ok := c.(*ssa.Defer); !ok {
+			return false
+		}
+		if c.Parent() == by {
+			mine = true
+		}
+	}
+	return mine
+}
+
+// afterRunDefers: in follows the point where its function runs deferred calls.
+func afterRunDefers(in ssa.Instruction) bool {
+	for _, x := range in.Block().Instrs {
+		if x == in {
+			return false
+		}
+		if _, ok := x.(*ssa.RunDefers); ok {
+			return true
+		}
+	}
+	return false
+}
+
+// slotIsPrivate: the address of the local is held only by stores to it, loads
+// of it and defer statements (a deferred call runs after every such access).
+func slotIsPrivate(al *ssa.Alloc) bool {
+	if al.Referrers() == nil {
+		return false
+	}
+	for _, r := range *al.Referrers() {
+		switch x := r.(type) {
+		case *ssa.UnOp, *ssa.Defer, *ssa.DebugRef:
+		case *ssa.Store:
+			if x.Addr != ssa.Value(al) {
+				return false
+			}
+		default:
+			return false
+		}
+	}
+	return true
+}
+
+// knownNonNilSlot: the load `at` of the local slot al can only be reached
+// through the non-nil edge of a test of an earlier load of the same slot, on a
+// straight line of single-predecessor blocks without a store to the slot. The
+// slot's address may only be held by stores, loads and defer statements (a
+// deferred call runs after every such load).
+func knownNonNilSlot(al *ssa.Alloc, at *ssa.UnOp) bool {
+	if !slotIsPrivate(al) {
+		return false
+	}
+	stored := func(b *ssa.BasicBlock, from, to int) bool {
+		for i := from; i < to && i < len(b.Instrs); i++ {
+			if st, ok := b.Instrs[i].(*ssa.Store); ok && st.Addr == ssa.Value(al) {
+				return true
+			}
+		}
+		return false
+	}
+	b := at.Block()
+	if stored(b, 0, instrIndex(at)) {
+		return false
+	}
+	for d := b; ; {
+		id := d.Idom()
+		if id == nil || len(d.Preds) != 1 || d.Preds[0] != id {
+			return false
+		}
+		if iff, ok := id.Instrs[len(id.Instrs)-1].(*ssa.If); ok {
+			if bo, ok := iff.Cond.(*ssa.BinOp); ok && (bo.Op == token.NEQ || bo.Op == token.EQL) {
+				var ld *ssa.UnOp
+				for _, pair := range [][2]ssa.Value{{bo.X, bo.Y}, {bo.Y, bo.X}} {
+					if u, ok := pair[0].(*ssa.UnOp); ok && u.Op == token.MUL && u.X == ssa.Value(al) && u.Block() == id {
+						if c, ok := pair[1].(*ssa.Const); ok && c.IsNil() {
+							ld = u
+						}
+					}
+				}
+				if ld != nil {
+					if stored(id, instrIndex(ld), len(id.Instrs)) {
+						return false
+					}
+					onTrue := id.Succs[0] == d && id.Succs[1] != d
+					onFalse := id.Succs[1] == d && id.Succs[0] != d
+					return (bo.Op == token.NEQ && onTrue) || (bo.Op == token.EQL && onFalse)
+				}
+			}
+		}
+		if stored(id, 0, len(id.Instrs)) {
+			return false
+		}
+		d = id
+	}
+}
+
 // knownNonNilAt: block b is only reachable through the true edge of a test
 // `v != nil` (or the false edge of `v == nil`).
 func knownNonNilAt(v ssa.Value, b *ssa.BasicBlock) bool {
@@ -416,6 +527,11 @@ func (e *Engine) syntacticNonNil(v ssa.Value, depth int) bool {
 			if last != nil {
 				return e.syntacticNonNil(last.Val, depth+1)
 			}
+			// the slot of a named result read back (`err = f(); if err != nil {
+			// return err }` where err lives in memory because a deferred call
+			// holds its address): non-nil when the path to this load leaves a
+			// nil test of the same slot with nothing stored in between
+			return knownNonNilSlot(al, x)
 		}
 	case *ssa.Phi:
 		for _, ed := range x.Edges {
@@ -485,12 +601,77 @@ func before(a, b ssa.Instruction) bool {
 	return a.Block().Dominates(b.Block())
 }
 
+// stepParamResolved: v is a function-typed parameter of fn and every call of
+// fn in the repository passes a repository function or function literal there.
+func (e *Engine) stepParamResolved(fn *ssa.Function, v ssa.Value) bool {
+	par, ok := v.(*ssa.Parameter)
+	if !ok {
+		return false
+	}
+	pi := -1
+	for i, q := range fn.Params {
+		if q == par {
+			pi = i
+		}
+	}
+	callers := e.P.Callers[fn]
+	if pi < 0 || len(callers) == 0 {
+		return false
+	}
+	for _, c := range callers {
+		args := c.Common().Args
+		if c.Common().StaticCallee() != fn || pi >= len(args) {
+			return false
+		}
+		a := args[pi]
+		for {
+			if ct, ok := a.(*ssa.ChangeType); ok {
+				a = ct.X
+				continue
+			}
+			break
+		}
+		var t *ssa.Function
+		switch x := a.(type) {
+		case *ssa.Function:
+			t = x
+		case *ssa.MakeClosure:
+			t, _ = x.Fn.(*ssa.Function)
+		}
+		if t == nil || !e.P.InRepo(t) || t.Blocks == nil {
+			return false
+		}
+	}
+	return true
+}
+
+// repoRecovers: some repository function calls the builtin recover.
+func (e *Engine) repoRecovers() bool {
+	if e.recovers == 0 {
+		e.recovers = 1
+		for _, fn := range e.P.Funcs {
+			for _, b := range fn.Blocks {
+				for _, in := range b.Instrs {
+					if c, ok := in.(ssa.CallInstruction); ok {
+						if bi, ok := c.Common().Value.(*ssa.Builtin); ok && bi.Name() == "recover" {
+							e.recovers = 2
+						}
+					}
+				}
+			}
+		}
+	}
+	return e.recovers == 2
+}
+
 func (e *Engine) dominatesSuccessExits(in ssa.Instruction) bool {
 	fn := in.Parent()
 	any := false
 	for _, b := range fn.Blocks {
 		ret, ok := b.Instrs[len(b.Instrs)-1].(*ssa.Return)
-		if !ok || e.RetIsFail(ret) {
+		if !ok || e.RetIsFail(ret) || (b == fn.Recover && !e.repoRecovers()) {
+			// (the recover block returns the named results after a recovered
+			// panic: dead while no repository function calls recover)
 			continue
 		}
 		any = true
@@ -626,6 +807,11 @@ func (e *Engine) load(place *Term, ctx *Ctx, at ssa.Value) *Term {
 				} else if !blockReaches(w.Instr.Block(), atInstr.Block()) {
 					continue
 				}
+			}
+			if atInstr != nil && w.Fn != atInstr.Parent() && e.runsOnlyDeferredBy(w.Fn, atInstr.Parent()) && !afterRunDefers(atInstr) {
+				// a write made by a deferred call has not happened before the
+				// deferring function runs its defers
+				continue
 			}
 			cands = append(cands, cand{w, rel, ex, wpath})
 		}
